@@ -94,41 +94,64 @@ Lemma eval_NTernary f e s c t el : eval (S f) e s (NTernary c t el) =
   end.
 Proof. reflexivity. Qed.
 
+Lemma eval_NIdent f e s name : name <> [] ->
+  eval (S f) e s (NIdent name) =
+  match lookup e name with
+  | Some (l, _) => (OVal (nth l (store s) VNil), e, s)
+  | None => (OErr XUndefined, e, s)
+  end.
+Proof. intros H. destruct name; [contradiction|reflexivity]. Qed.
+
 Arguments eval : simpl never.
+
+(* the environment binds the first n variables, and the store holds their current values *)
+Definition env_ok (names : list (list N)) (rho : list F.sval) (e : env) (s : state) : Prop :=
+  forall i v, nth_error rho i = Some v ->
+    nth i names [] <> [] /\
+    exists l c, lookup e (nth i names []) = Some (l, c) /\ nth l (store s) VNil = inj v.
 
 Lemma op_text_not_land o : beq (F.op_text o) [38;38]%N = false.
 Proof. destruct o; reflexivity. Qed.
 Lemma op_text_not_lor o : beq (F.op_text o) [124;124]%N = false.
 Proof. destruct o; reflexivity. Qed.
 
-Theorem sem_scalar : forall x f e s, F.height x <= f ->
-  eval f e s (F.embed x) = (lift (F.sev x), e, s).
+Theorem sem_scalar : forall names rho x f e s,
+  F.height x <= f -> F.wf (length rho) x = true -> env_ok names rho e s ->
+  eval f e s (F.embed names x) = (lift (F.sev rho x), e, s).
 Proof.
-  induction x as [z|b| |a IHa|a IHa|o a IHa b IHb|a IHa b IHb|a IHa b IHb|c IHc t IHt el IHe];
-    intros f e s Hf; cbn [F.height] in Hf; (destruct f as [|f]; [lia|]); cbn [F.embed F.sev].
+  intros names rho.
+  induction x as [z|b| |i|a IHa|a IHa|o a IHa b IHb|a IHa b IHb|a IHa b IHb|c IHc t IHt el IHe];
+    intros f e s Hf Hwf Henv; cbn [F.height] in Hf; (destruct f as [|f]; [lia|]); cbn [F.embed F.sev]; cbn [F.wf] in Hwf.
   - apply eval_NInt.
   - apply eval_NBool.
   - apply eval_NNil.
-  - rewrite eval_NPrefix, (IHa f e s) by lia. change (beq [45%N] [33%N]) with false. cbn iota.
-    destruct (F.sev a) as [[|x|x]|[|]]; reflexivity.
-  - rewrite eval_NPrefix, (IHa f e s) by lia. change (beq [33%N] [33%N]) with true. cbn iota.
-    destruct (F.sev a) as [v|[|]]; cbn [lift]; [rewrite truthy_inj|..]; reflexivity.
-  - rewrite eval_NInfix, op_text_not_land, op_text_not_lor. rewrite (IHa f e s) by lia.
-    destruct (F.sev a) as [va|[|]]; cbn [lift]; try reflexivity.
-    rewrite (IHb f e s) by lia.
-    destruct (F.sev b) as [vb|[|]]; cbn [lift]; try reflexivity.
+  - apply Nat.ltb_lt in Hwf. destruct (nth_error rho i) as [v|] eqn:Ei; [|apply nth_error_None in Ei; lia].
+    destruct (Henv i v Ei) as [Hne [l [c [Hl Hv]]]].
+    rewrite (eval_NIdent f e s _ Hne), Hl, Hv. reflexivity.
+  - rewrite eval_NPrefix, (IHa f e s) by (lia || assumption). change (beq [45%N] [33%N]) with false. cbn iota.
+    destruct (F.sev rho a) as [[|x|x]|[|]]; reflexivity.
+  - rewrite eval_NPrefix, (IHa f e s) by (lia || assumption). change (beq [33%N] [33%N]) with true. cbn iota.
+    destruct (F.sev rho a) as [v|[|]]; cbn [lift]; [rewrite truthy_inj|..]; reflexivity.
+  - apply andb_true_iff in Hwf. destruct Hwf as [Hwa Hwb].
+    rewrite eval_NInfix, op_text_not_land, op_text_not_lor. rewrite (IHa f e s) by (lia || assumption).
+    destruct (F.sev rho a) as [va|[|]]; cbn [lift]; try reflexivity.
+    rewrite (IHb f e s) by (lia || assumption).
+    destruct (F.sev rho b) as [vb|[|]]; cbn [lift]; try reflexivity.
     rewrite cmp_flag. destruct (is_cmp o) eqn:Ec.
     + rewrite (compare_inj s o va vb Ec). reflexivity.
     + rewrite (binop_inj s o va vb Ec). reflexivity.
-  - rewrite eval_NInfix. change (beq [38;38]%N [38;38]%N) with true. cbn iota.
-    rewrite (IHa f e s) by lia.
-    destruct (F.sev a) as [va|[|]]; cbn [lift]; try reflexivity.
-    rewrite truthy_inj. destruct (F.struthy va); [apply IHb; lia|reflexivity].
-  - rewrite eval_NInfix. change (beq [124;124]%N [38;38]%N) with false. change (beq [124;124]%N [124;124]%N) with true. cbn iota.
-    rewrite (IHa f e s) by lia.
-    destruct (F.sev a) as [va|[|]]; cbn [lift]; try reflexivity.
-    rewrite truthy_inj. destruct (F.struthy va); [reflexivity|apply IHb; lia].
-  - rewrite eval_NTernary. rewrite (IHc f e s) by lia.
-    destruct (F.sev c) as [vc|[|]]; cbn [lift]; try reflexivity.
-    rewrite truthy_inj. destruct (F.struthy vc); [apply IHt|apply IHe]; lia.
+  - apply andb_true_iff in Hwf. destruct Hwf as [Hwa Hwb].
+    rewrite eval_NInfix. change (beq [38;38]%N [38;38]%N) with true. cbn iota.
+    rewrite (IHa f e s) by (lia || assumption).
+    destruct (F.sev rho a) as [va|[|]]; cbn [lift]; try reflexivity.
+    rewrite truthy_inj. destruct (F.struthy va); [apply IHb; (lia || assumption)|reflexivity].
+  - apply andb_true_iff in Hwf. destruct Hwf as [Hwa Hwb].
+    rewrite eval_NInfix. change (beq [124;124]%N [38;38]%N) with false. change (beq [124;124]%N [124;124]%N) with true. cbn iota.
+    rewrite (IHa f e s) by (lia || assumption).
+    destruct (F.sev rho a) as [va|[|]]; cbn [lift]; try reflexivity.
+    rewrite truthy_inj. destruct (F.struthy va); [reflexivity|apply IHb; (lia || assumption)].
+  - apply andb_true_iff in Hwf. destruct Hwf as [Hwct Hwe]. apply andb_true_iff in Hwct. destruct Hwct as [Hwc Hwt].
+    rewrite eval_NTernary. rewrite (IHc f e s) by (lia || assumption).
+    destruct (F.sev rho c) as [vc|[|]]; cbn [lift]; try reflexivity.
+    rewrite truthy_inj. destruct (F.struthy vc); [apply IHt|apply IHe]; (lia || assumption).
 Qed.
